@@ -21,22 +21,42 @@ CH_ASSUME = [
 CH_RULE = "det mode: 2-5 threads, seeded op lists (send / clone / drop of Senders, try_recv / recv / recv_timeout with virtual time-outs, drain or early drop of Receivers; a gated variant keeps every Sender alive until the receiver has got everything, so that a lost wake-up shows as a deadlock), seeded random schedules with stickiness; distinct = SHA-1 of the canonical trace"
 # ---- end C06 / C07 constants
 
+def _c01_life_family():
+    """the `life` family needs the run-queue hooks of pending_hooks/wp-life.patch (one event per operation on
+    scheduler.rs `local_queues` / `global_queues`, `sched_*` notes) in the repo under test"""
+    import os, sys
+    repo = os.environ.get("VERIF_REPO", "/repo")
+    try:
+        hooked = "sched_global" in open(os.path.join(repo, "src", "scheduler.rs")).read()
+    except OSError:
+        hooked = False
+    if not hooked:
+        if len(sys.argv) > 1 and sys.argv[1] == "C01":
+            print("# C01: family `life` not run: %s lacks the run-queue hooks (apply /verif/pending_hooks/wp-life.patch)" % repo, file=sys.stderr)
+        return []
+    return [dict(mode="live", name="life", quick=360, thorough=6000,
+                 nontrivial=r"\n(timer|c:\S+|k:\S+) note - resume_enter|\nc:\S+ note - sched_|q\.steal_into 0 0 [1-9]")]
+
 PROPS = {
     "C01": dict(
         lean_props=["MayVerif.Props.C01"],
         families=[
             dict(mode="live", name="join", quick=360, thorough=6000, nontrivial=r" join\.to_wake@\d+ opt\.store "),
-        ],
+        ] + _c01_life_family(),
         trusted_base=TB_COMMON + [
             "Blocker (park/unpark of the joiner) is the abstract binary token at this layer (C02 is its own check); in the join traces unpark/park are not observed, the replay executes unpark with the take that found the blocker and lets park return only if the model's token is there",
             "AtomicOption (crossbeam AtomicCell swap/take) is an atomic option cell; the generator's context switch, panic capture (get_panic_data) and the stack pool's memory are parameters",
+            "the run queues (may_queue::mpsc global queues, may_queue::spmc local queues with steal_into) are their atomic specifications at this layer (C03/C04 are their own checks); the cfg(may_verif) wrappers perform each queue operation under the log lock, so the spmc over-claim window (DESIGN App. F) cannot occur in the harness runs",
+            "event sources other than Yield (Park, timer, sleep, Join's blocker) are an abstract slot: store / wake are not observed at this layer, the replay inserts them right before the first event that shows the coroutine in another thread's hand",
         ],
         assumptions=[
             "fair scheduling for the not-stuck theorems (they say: the token is there / the queues are empty, not that the OS runs the thread)",
             "join(self) consumes the handle: at most one join per coroutine (Rust ownership)",
             "a joiner cancelled while parked inside wait() is not modelled (C09)",
+            "co_runs_to_end is conditional on the spmc layer completing every claim (spmc_claim_completes, C04): a stealer that over-claimed waits for the owner's next pushes",
+            "a coroutine that spins on yield_now() keeps its worker's local queue non-empty, and run_queued_tasks collects the global queue only when the local one is empty: coroutines in that worker's global queue wait until the spinner stops (fairness between the two queues is not a theorem)",
         ],
-        rule="live mode on the real runtime, 1-3 workers, seeded perturbation: a coroutine that yields 0-3 times and returns / panics / is cancelled, 1-2 joiners (main, threads, coroutines) racing is_done/wait/join with the finish; non-trivial = a joiner registered its blocker (to_wake.store in the trace); distinct = SHA-1 of the canonical trace",
+        rule="live mode on the real runtime, 1-3 workers, seeded perturbation: a coroutine that yields 0-3 times and returns / panics / is cancelled, 1-2 joiners (main, threads, coroutines) racing is_done/wait/join with the finish (non-trivial = a joiner registered its blocker: to_wake.store in the trace); family life: trees of 2-7 spawns from main / a thread / coroutines (spawn, spawn_local, Builder::id, custom stack), 0-5 yields / 1-2 ms sleeps each, parent parks until a child unparks it (non-trivial = a steal, a resume by the timer thread or nested inside another context, or a wake-up scheduled by a coroutine); distinct = SHA-1 of the canonical trace",
     ),
     "C03": dict(
         lean_props=["MayVerif.Props.C03"],
@@ -80,6 +100,9 @@ PROPS = {
         families=[
             dict(mode="det", name="sem", quick=2500, thorough=20000, nontrivial=r" q\.push "),
             dict(mode="det", name="syncflag", quick=1500, thorough=15000, nontrivial=r" q\.push "),
+            # systematic: every schedule (time-out choices included) with <= 2 preemptions of a few seeded scenarios, on the real code
+            dict(mode="detx", name="sem", quick=4, thorough=48, nontrivial=r" q\.push "),
+            dict(mode="detx", name="syncflag", quick=4, thorough=48, nontrivial=r" q\.push "),
         ],
         trusted_base=TB_COMMON + [
             "ThreadPark is replaced by the controller's virtual token in det mode; a time-out is a schedule choice of the controller (the real parking_lot implementation and real clocks are not exercised there)",
@@ -91,7 +114,7 @@ PROPS = {
             "det mode exercises thread actors only: coroutine actors and real cancellation (Err(Canceled) + trigger_cancel_panic) are covered by the model (Env.abort at every park) but not by replayed traces",
             "SyncFlag: fewer than isize::MAX actors (concurrent waits), stated as hypothesis n < MAXI of syncflag_latch",
         ],
-        rule="det mode: 2-5 threads x 1-6 operations (sem: wait / wait_timeout / try_wait / post / get_value, init 0..3; syncflag: fire / wait / wait_timeout / is_fired), virtual time-outs fired by the controller (120 per mille), seeded random schedules with stickiness; non-trivial = at least one waiter registered (q.push in the trace); distinct = SHA-1 of the canonical trace",
+        rule="det mode: 2-5 threads x 1-6 operations (sem: wait / wait_timeout / try_wait / post / get_value, init 0..3; syncflag: fire / wait / wait_timeout / is_fired), virtual time-outs fired by the controller (120 per mille), seeded random schedules with stickiness, plus detx: all schedules with <= 2 preemptions (time-out firings included) of 4 seeded scenarios per family; non-trivial = at least one waiter registered (q.push in the trace); distinct = SHA-1 of the canonical trace",
     ),
     "C06": dict(
         lean_props=["MayVerif.Props.C06"],
@@ -148,5 +171,26 @@ PROPS = {
             "Barrier generation_id is an unbounded Nat in the model (the code wraps at 2^64)",
         ],
         rule="det mode: 2-5 threads; consumers wait / wait_while for a permit, bystanders wait_timeout once (virtual time-outs; woken without time-out they re-notify themselves, after a time-out the condvar must), producers add one permit per consumer and notify_one (under or after the lock) / notify_all, extra notify_one / notify_all without the lock; barrier: n = 1-5 threads x 1-4 rounds on one Barrier(n); waitgroup: 2-5 threads with 1-2 handles each, clone/drop/wait; seeded random schedules; non-trivial = a notifier popped a waiter's blocker (condvar, barrier) / a wait blocked (waitgroup); distinct = SHA-1 of the canonical trace",
+    ),
+    "C12": dict(
+        lean_props=["MayVerif.Props.C12"],
+        families=[
+            # regression corpus first: the witness shapes of the defects F1a / F1b of the pinned tree (see pending_fixes/README-C12.md)
+            dict(mode="det", name="rwlock_reg", quick=200, thorough=4000, nontrivial=r" sync\.poison\.failed@\d+ load 0 0 1 "),
+            dict(mode="det", name="rwlock", quick=800, thorough=20000, nontrivial=r" sync\.(rwlock|mutex)\.to_wake@\d+ q\.push "),
+        ],
+        trusted_base=TB_COMMON + [
+            "ThreadPark is replaced by the controller's virtual token in det mode (the real parking_lot implementation is not exercised there)",
+            "crossbeam SegQueue (gate waiter queue) and may_queue::mpsc::Queue (rlock waiter queue) are atomic FIFOs at this layer",
+            "the non-atomic reader count *rlock is folded into the adjacent atomic steps; justified by theorem rwlock_rlock_sections_exclusive (rlock = the C05 Mutex model as a component)",
+            "rustc unwinding: a guard's drop runs exactly once; thread::panicking() is the caller-chosen flag of Env.dropW",
+        ],
+        assumptions=[
+            "fair scheduling for the no-stranded-waiter theorem (quiescence form)",
+            "det mode exercises thread actors only: the cancel paths (Env.abort) are in the model and the theorems but are not matched by traces here (live mode / coroutines: C09)",
+            "rlock is never poisoned in the fixed code (no panic is possible while it is held: rwlock_reader_count_never_underflows, rwlock_pop_never_empty), so its poison flag always reads 0 in the model",
+            "visibility of data written under the lock follows from SC, which is assumed",
+        ],
+        rule="det mode: rwlock_reg = 8 fixed witness shapes of F1a/F1b (poisoned lock, try_read + drop of the guard inside Poisoned; simultaneous write/try_write/read callers on a free poisoned lock) under seeded schedules; rwlock = 2-5 threads x 1-7 read/write/try_read/try_write/is_poisoned/drop operations incl. panic while holding the write guard and guards recovered from PoisonError; non-trivial = a poisoned guard was handed out (reg) / at least one waiter registered on the gate or on rlock (rwlock); distinct = SHA-1 of the canonical trace",
     ),
 }
